@@ -6,5 +6,5 @@ CONSTANTS
   NoiseKinds = {"forged", "other"}
   MaxSteps = 5
   MaxForged = 1
-  DevLostForgets = TRUE
+  DevLostForgets = FALSE
   Schedules = {"each", "glue"}
